@@ -63,8 +63,14 @@ where
         walked_cstore
     }
 
-    /// Add new constraint `c` while keeping the store normalized
-    pub fn push_and_normalize(&mut self, newc: Rc<dyn Constraint<U, E>>) {
+    /// Add new constraint `c` while keeping the store normalized. Returns the constraints
+    /// that were dropped as redundant: stored constraints subsumed by the new constraint, or
+    /// the new constraint itself if it is subsumed by a stored one.
+    pub fn push_and_normalize(
+        &mut self,
+        newc: Rc<dyn Constraint<U, E>>,
+    ) -> Vec<Rc<dyn Constraint<U, E>>> {
+        let mut dropped = vec![];
         if let Some(tree_newc) = newc.downcast_ref::<DisequalityConstraint<U, E>>() {
             // A new constraint that is subsumed by a stored constraint is redundant; the
             // stored constraint is the stronger one and must be kept.
@@ -73,26 +79,31 @@ where
                     .downcast_ref::<DisequalityConstraint<U, E>>()
                     .map_or(false, |tree_storec| tree_storec.subsumes(tree_newc))
             }) {
-                return;
+                dropped.push(newc);
+                return dropped;
             }
 
             // Stored constraints that are subsumed by the new constraint are dropped. All
             // non-subsumable constraints are always carried along.
             self.0.retain(|storec| {
                 match storec.downcast_ref::<DisequalityConstraint<U, E>>() {
-                    Some(tree_storec) => !tree_newc.subsumes(tree_storec),
-                    None => true,
+                    Some(tree_storec) if tree_newc.subsumes(tree_storec) => {
+                        dropped.push(Rc::clone(storec));
+                        false
+                    }
+                    _ => true,
                 }
             });
         }
         self.insert(newc);
+        dropped
     }
 
     /// Remove redundant constraints from the store
     pub fn normalize(self) -> ConstraintStore<U, E> {
         let mut normalized_store = ConstraintStore::new();
         for storec in self.0.into_iter() {
-            normalized_store.push_and_normalize(storec.into());
+            let _ = normalized_store.push_and_normalize(storec.into());
         }
         normalized_store
     }
